@@ -9,6 +9,7 @@ import (
 	"sort"
 	"strconv"
 	"strings"
+	"sync/atomic"
 )
 
 type nondetInfo struct {
@@ -26,6 +27,7 @@ type Finding struct {
 	Msg       string
 	Values    map[string]string
 	Decisions []int
+	Choices   []int
 	Threads   int
 	Run       string
 }
@@ -41,7 +43,8 @@ func (e *Engine) newNondet(name, kind string, s Sort) *Term {
 	e.nondetByName[name] = ni
 	e.nondetList = append(e.nondetList, ni)
 	e.nondets = append(e.nondets, v)
-	if pv, ok := e.pinned[name]; ok {
+	if e.pinMode {
+		pv := e.pinned[name]
 		var c *Term
 		switch kind {
 		case "int":
@@ -60,6 +63,7 @@ func (e *Engine) newNondet(name, kind string, s Sort) *Term {
 			c = &Term{Op: "const", S: FP64S, Const: true, V: x}
 		}
 		if c != nil {
+			e.pinModel[v.Name] = c.V
 			e.addAssume(Eq(v, c))
 		}
 	}
@@ -83,12 +87,20 @@ func (e *Engine) newNondetBytes(name string, c int) *bytesV {
 	e.nondetByName[name] = ni
 	e.nondetList = append(e.nondetList, ni)
 	e.addAssume(Ule(n, BV(64, uint64(c))))
-	if pv, ok := e.pinned[name]; ok {
-		if bs, err := hex.DecodeString(pv); err == nil && len(bs) <= c {
-			e.addAssume(Eq(n, BV(64, uint64(len(bs)))))
-			for i, b := range bs {
-				e.addAssume(Eq(arr.b[i], BV(8, uint64(b))))
+	if e.pinMode {
+		bs, _ := hex.DecodeString(e.pinned[name])
+		if len(bs) > c {
+			bs = bs[:c]
+		}
+		e.pinModel[n.Name] = uint64(len(bs))
+		e.addAssume(Eq(n, BV(64, uint64(len(bs)))))
+		for i := range arr.b {
+			var b byte
+			if i < len(bs) {
+				b = bs[i]
 			}
+			e.pinModel[arr.b[i].Name] = uint64(b)
+			e.addAssume(Eq(arr.b[i], BV(8, uint64(b))))
 		}
 	}
 	return &bytesV{arr: arr, n: n, cap: c}
@@ -313,11 +325,14 @@ func (e *Engine) sortedKnowns() []string {
 }
 
 func (e *Engine) addFinding(kind, label, class, msg string, model map[string]uint64) {
-	f := &Finding{Kind: kind, Label: label, Class: class, Msg: msg, Decisions: append([]int{}, e.decisions...), Threads: len(e.threads)}
+	f := &Finding{Kind: kind, Label: label, Class: class, Msg: msg, Decisions: append([]int{}, e.decisions...), Choices: append([]int{}, e.choices...), Threads: len(e.threads)}
 	if model != nil {
 		f.Values = e.assignment(model)
 	}
 	e.findings = append(e.findings, f)
+	if class == "" && kind != "unknown" && e.violCounter != nil {
+		atomic.AddInt64(e.violCounter, 1)
+	}
 }
 
 // checkAssert asks, for the negated assertion under the path condition:
